@@ -147,7 +147,7 @@ func C19Scenario() *Scenario {
 				return []byte(fmt.Sprintf(`{"status":{"call":%d},"children":[]%s}`, id, extra))
 			}
 			hdr := map[string]string{}
-			behaviours := []string{"unknown-field-etag", "200", "200-etag", "304", "412", "429-num", "429-date", "429-none", "429-junk", "other", "unknown-field", "duplicate-field", "bad-json", "stall", "refused", "200-etag", "200-etag-reused"}
+			behaviours := []string{"unknown-field-etag", "200", "200-etag", "304", "412", "429-num", "429-date", "429-none", "429-junk", "other", "unknown-field", "duplicate-field", "bad-json", "stall", "refused", "200-etag", "200-etag-reused", "other-etag"}
 			b := behaviours[w.T.Pick(len(behaviours), "behaviour")]
 			call.behaviour = b
 			call.expectKnown = true
@@ -236,6 +236,12 @@ func C19Scenario() *Scenario {
 			case "other":
 				codes := []int{201, 202, 204, 301, 400, 403, 404, 500, 502, 503}
 				return HookAnswer{Code: codes[w.T.Pick(len(codes), "othercode")], Body: body("")}
+			case "other-etag":
+				// a failure that looks like an answer: ETag header and a well-formed body
+				// under a status that is not an answer. Nothing of it may be kept.
+				codes := []int{500, 503, 400, 202}
+				hdr["ETag"] = fmt.Sprintf("x%d", id)
+				return HookAnswer{Code: codes[w.T.Pick(len(codes), "othercode")], Header: hdr, Body: body("")}
 			case "unknown-field":
 				if !strict {
 					accept(int64(id))
